@@ -157,3 +157,28 @@ def c_entry(p_info):
     if not (isinstance(line, str) and isinstance(lit, str) and isinstance(var, str)):
         return False
     return str(lit) in str(line) and ("DataclassSerializer.serialize(" + str(var) + ")") in str(line)
+
+
+# ---- discriminated union alias: the variants are imported under the names the model files are emitted with (C14 / C01) ----------------------------
+from pyopenapi_gen.core.utils import NameSanitizer  # noqa: E402
+
+
+def _returns_str(result):
+    """NameSanitizer functions return str (their own properties are C20's)"""
+    return isinstance(result, str)
+
+
+c = contract(R + ".render_alias#discriminator-import", props=["C14", "C01"], region_for_target="(disc_value, schema_ref)", region_occurrence=1, region_body_only=True,
+             types={"disc_value": "str", "schema_ref": "str"}, abstract_unsupported=True, track_calls=True,
+             functional_opaque=["NameSanitizer.sanitize_module_name", "sanitize_module_name", "NameSanitizer.sanitize_class_name", "sanitize_class_name"],
+             nothrow_calls=["sanitize_module_name", "sanitize_class_name", "write_line"],
+             dependency_post={"sanitize_module_name": _returns_str, "sanitize_class_name": _returns_str})
+
+
+@c.ensures(only_exit="end", note="C14 / C01: the one line this iteration writes is `from .<module name of the schema> import <class name of the schema>`, both derived by "
+                                 "NameSanitizer from the last component of the reference — the same functions that name the model's file and class")
+def di_imports_under_emitted_names(schema_ref):
+    if call_count("writer.write_line") != 1:
+        return False
+    name = schema_ref.split("/")[-1]
+    return call_arg("writer.write_line", 0, 0) == "        from ." + NameSanitizer.sanitize_module_name(name) + " import " + NameSanitizer.sanitize_class_name(name)
